@@ -26,6 +26,14 @@ fn validate_address(address: usize, size: usize, end_is_valid: bool) -> Result<(
     }
 }
 
+/// End of the range `address..address + amount`, or an out-of-bounds error if it does not fit
+/// in the address space (and therefore cannot lie inside the archive either).
+fn checked_end(address: usize, amount: usize, size: usize) -> Result<usize> {
+    address
+        .checked_add(amount)
+        .ok_or(ArchiveError::OutOfBoundsAddress(address, size))
+}
+
 fn validate_alignment(value: usize, bytes: usize) -> Result<()> {
     if value % bytes != 0 {
         Err(ArchiveError::UnalignedValue(value, bytes))
@@ -422,8 +430,9 @@ impl BinArchive {
 
     pub fn read_bytes(&self, address: usize, amount: usize) -> Result<&[u8]> {
         validate_address(address, self.size(), false)?;
-        validate_address(address + amount, self.size(), true)?;
-        Ok(&self.data[address..(address + amount)])
+        let end = checked_end(address, amount, self.size())?;
+        validate_address(end, self.size(), true)?;
+        Ok(&self.data[address..end])
     }
 
     pub fn read_string(&self, address: usize) -> Result<Option<String>> {
@@ -547,8 +556,9 @@ impl BinArchive {
 
     pub fn write_bytes(&mut self, address: usize, bytes: &[u8]) -> Result<()> {
         validate_address(address, self.size(), false)?;
-        validate_address(address + bytes.len(), self.size(), true)?;
-        self.data[address..(address + bytes.len())].copy_from_slice(bytes);
+        let end = checked_end(address, bytes.len(), self.size())?;
+        validate_address(end, self.size(), true)?;
+        self.data[address..end].copy_from_slice(bytes);
         Ok(())
     }
 
@@ -628,7 +638,8 @@ impl BinArchive {
 
     pub fn deallocate(&mut self, address: usize, amount_in_bytes: usize, ge: bool) -> Result<()> {
         validate_address(address, self.size(), false)?;
-        validate_address(address + amount_in_bytes, self.size(), true)?;
+        let end = checked_end(address, amount_in_bytes, self.size())?;
+        validate_address(end, self.size(), true)?;
         validate_alignment(address, 4)?;
         validate_alignment(amount_in_bytes, 4)?;
         self.data.drain(address..(address + amount_in_bytes));
